@@ -443,8 +443,13 @@ func (w *world) doOp(op *Op) *reply {
 			c.rv.apply(res)
 			c.cur = &ns
 			c.updated = true
-			c.lostGrant = ""
-			c.reqUnsure = false
+			if c.lostGrant == "" || newOracles(w).allocated(c.spec.ID) {
+				c.lostGrant = ""
+				c.reqUnsure = false
+			}
+			// else: an earlier failed update left this request in the cache
+			// (F6), the plugin takes the repeated update for "no change" and
+			// the container stays without its grant (F8)
 			c.resAtAlloc = w.reservedClass(c)
 			c.cfgAtAlloc = w.cfg
 		} else if rep.err != nil {
@@ -721,13 +726,17 @@ func (w *world) synchronize(rep *reply) (error, bool) {
 
 const markRevertFailed = "failed to revert configuration"
 
+// topology-aware: reinstating the grants verbatim failed, everything was
+// re-allocated instead (F24)
+const markReinstateFailed = "failed to reinstate grants verbatim"
+
 // balloons: Sync (restart, Synchronize, Reconfigure) only logs a container it
 // could not re-admit
 const markReadmitFailed = "allocating resources for Sync produced an error"
 
 func setupProcess() {
 	klog.OsExit = func(code int) { panic(exitPanic{code}) }
-	sim.LogMarkers(markRevertFailed, markReadmitFailed)
+	sim.LogMarkers(markRevertFailed, markReadmitFailed, markReinstateFailed)
 }
 
 func (w *world) setMemCapacity() {
